@@ -17,13 +17,14 @@ import (
 // case alone in fresh children.
 
 type C10Case struct {
-	Class string         `json:"class"`
-	Doc   map[string]any `json:"doc"`
-	SQL   string         `json:"sql"`
-	Opts  Opts           `json:"opts"`
-	KSel  int            `json:"ksel,omitempty"`  // fault classes: k = 1 + KSel mod N (N from a fault-free probe run)
-	Panic int            `json:"panic,omitempty"` // 0 error, 1 panic(error), 2 panic(string)
-	Proc  int            `json:"procs,omitempty"` // GOMAXPROCS of the child for this case (0 = default)
+	Class  string         `json:"class"`
+	Doc    map[string]any `json:"doc"`
+	SQL    string         `json:"sql"`
+	Opts   Opts           `json:"opts"`
+	KSel   int            `json:"ksel,omitempty"`   // fault classes: k = 1 + KSel mod N (N from a fault-free probe run)
+	Panic  int            `json:"panic,omitempty"`  // 0 error, 1 panic(error), 2 panic(string)
+	Proc   int            `json:"procs,omitempty"`  // GOMAXPROCS of the child for this case (0 = default)
+	Reexec int            `json:"reexec,omitempty"` // > 1: the same Query object is executed this many times
 }
 
 var c10Hostile = []string{
@@ -262,6 +263,9 @@ func genC10(t *rapid.T) any {
 	c.Class = rapid.SampledFrom([]string{"valid", "valid", "mutated", "mutated", "mutated", "bytes", "hostile", "hostile", "hostile-mutated", "fault", "fault", "fault", "cyclic-format", "join-on", "join-on"}).Draw(t, "class")
 	c.Opts = genC10Opts(t)
 	c.Proc = rapid.SampledFrom([]int{0, 0, 1, 2, 4}).Draw(t, "procs")
+	if rapid.IntRange(0, 3).Draw(t, "reexec") == 0 {
+		c.Reexec = rapid.IntRange(2, 3).Draw(t, "reexecn")
+	}
 	switch c.Class {
 	case "valid", "mutated":
 		w := genWide(t, nil)
@@ -375,7 +379,10 @@ const c10Timeout = 15 * time.Second
 func checkC10(c *C10Case) Result {
 	res := Result{}
 	res.Labels = append(res.Labels, "class:"+c.Class, "options:"+c.Opts.String())
-	job := &WJob{Kind: "query", Doc: docJSON(c.Doc), SQL: c.SQL, Opts: c.Opts}
+	job := &WJob{Kind: "query", Doc: docJSON(c.Doc), SQL: c.SQL, Opts: c.Opts, Reexec: c.Reexec}
+	if c.Reexec > 1 {
+		res.Labels = append(res.Labels, "same-query-object-executed-repeatedly")
+	}
 	if strings.Contains(c.SQL, "SPIN") || strings.Contains(c.SQL, "ASYNC") {
 		job.SettleMs = 15
 	}
@@ -485,7 +492,7 @@ func init() {
 			"unknown/aggregate/immediate functions, DML, empty input, selector syntax in FROM) on documents of regular and irregular shape, also mutated; " +
 			"fault = a planted function that returns an error / panics with an error / panics with a string at invocation k under no qualifier, ASYNC, " +
 			"SPIN, SPINASYNC, ONCE, AWAIT and nested in another call; cyclic-format = DISTINCT / ORDER BY over select lists mixing a subquery with `*`; join-on = ON clauses of every shape (non-boolean, ill-typed, missing columns, function calls, subqueries, AND/OR trees) under every join keyword incl. PARALLEL. " +
-			"GOMAXPROCS of the child in {default,1,2,4}. Oracle: the child answers ok or error and stays alive (a panic escaping New/Exec, a process " +
+			"GOMAXPROCS of the child in {default,1,2,4}; a quarter of the cases execute the same Query object two or three times. Oracle: the child answers ok or error and stays alive (a panic escaping New/Exec, a process " +
 			"death confirmed in a fresh child, or a 15 s timeout confirmed in three fresh children is a violation). Non-trivial: the query gets past " +
 			"the parser, or is a mutation, or belongs to the fault / cyclic-format class.",
 		Assumptions: []string{
